@@ -150,52 +150,57 @@ Definition stable_core (a b c : s2_Point) : PrimFloat.float * PrimFloat.float :=
     else (bc, ab, s2_Point_Vector b) in
   (PrimFloat.opp (r3_Vector_Dot (r3_Vector_Cross e1 e2) op),
    PrimFloat.sqrt (PrimFloat.mul (r3_Vector_Norm2 e1) (r3_Vector_Norm2 e2))).
-Definition stable_with (M : PrimFloat.float) (a b c : s2_Point) : Z :=
+(** stableSign (after the repair bfbf523): below [Mmin] the bound is not trusted *)
+Definition stable_with (M Mmin : PrimFloat.float) (a b c : s2_Point) : Z :=
+  let '(det, s) := stable_core a b c in
+  let maxErr := PrimFloat.mul M s in
+  if PrimFloat.ltb maxErr Mmin then 0%Z
+  else if PrimFloat.ltb maxErr det then 1%Z else if PrimFloat.ltb det (PrimFloat.opp maxErr) then (-1)%Z else 0%Z.
+(** stableSign BEFORE the repair (no lower limit on maxErr) — kept for the refutation witness *)
+Definition stable_old_with (M : PrimFloat.float) (a b c : s2_Point) : Z :=
   let '(det, s) := stable_core a b c in
   let maxErr := PrimFloat.mul M s in
   if PrimFloat.ltb maxErr det then 1%Z else if PrimFloat.ltb det (PrimFloat.opp maxErr) then (-1)%Z else 0%Z.
 
-Definition stable_shape : { M : PrimFloat.float | forall a b c, s2_stableSign a b c = stable_with M a b c }.
+Definition stable_shape : { M : PrimFloat.float & { Mmin : PrimFloat.float |
+  forall a b c, s2_stableSign a b c = stable_with M Mmin a b c } }.
 Proof.
-  eexists. intros a b c. unfold s2_stableSign, stable_with, stable_core. cbv zeta.
+  eexists. eexists. intros a b c. unfold s2_stableSign, stable_with, stable_core. cbv zeta.
   destruct (PrimFloat.leb _ _ && PrimFloat.leb _ _); [reflexivity|].
   destruct (PrimFloat.leb _ _); reflexivity.
 Defined.
-Definition detErrMul : PrimFloat.float := proj1_sig stable_shape.
-Lemma stable_is a b c : s2_stableSign a b c = stable_with detErrMul a b c.
-Proof. exact (proj2_sig stable_shape a b c). Qed.
+Definition detErrMul : PrimFloat.float := projT1 stable_shape.
+Definition minNoUnderflowErr : PrimFloat.float := proj1_sig (projT2 stable_shape).
+Lemma stable_is a b c : s2_stableSign a b c = stable_with detErrMul minNoUnderflowErr a b c.
+Proof. exact (proj2_sig (projT2 stable_shape) a b c). Qed.
 
-(** 847275 * 2^-70 = 3.232097 * 2^-52, just below the documented 3.2321 * 2^-52 *)
+(** 847275 * 2^-70 = 3.232097 * 2^-52, just below the documented 3.2321 * 2^-52; the lower limit
+    of a trusted bound is that times 2^-500 (|e1||e2| >= 2^-500: nothing underflows) *)
 Definition K_STABLE : dyadic := Dy 847275 (-70).
-Lemma stable_const_ok : ffinite detErrMul = true /\ D2R K_STABLE <= FR detErrMul.
+Definition K_STABLE_MIN : dyadic := Dy 847275 (-570).
+Lemma stable_const_ok : ffinite detErrMul = true /\ D2R K_STABLE <= FR detErrMul /\
+  ffinite minNoUnderflowErr = true /\ D2R K_STABLE_MIN <= FR minNoUnderflowErr.
 Proof.
+  split; [vm_compute; reflexivity|]. split; [apply FR_le_by_compute; vm_compute; reflexivity|].
   split; [vm_compute; reflexivity|]. apply FR_le_by_compute. vm_compute. reflexivity.
 Qed.
 
-(** the error scale sqrt(|e1|^2 |e2|^2) computed by stableSign, and the guard under which the
-    error analysis is meaningful: no underflow in |e|^2, in the product, or in e1 x e2 *)
-Definition stable_scale (a b c : s2_Point) : PrimFloat.float := snd (stable_core a b c).
-Definition stable_min_scale : PrimFloat.float := 0x1p-480%float.
-Definition stable_ok (a b c : s2_Point) : Prop :=
-  PrimFloat.leb stable_min_scale (stable_scale a b c) = true.
-
-(** H-STABLE-DET, in sign form: with ANY multiplier at least K_STABLE the float test
-    [|det| > fl(M * sqrt(|e1|^2 |e2|^2))] implies that the sign of det is the exact one —
-    PROVIDED the scale does not underflow ([stable_ok]). *)
-Definition H_STABLE_DET : Prop := forall M a b c, ffinite M = true -> D2R K_STABLE <= FR M ->
-  unit_pt a -> unit_pt b -> unit_pt c -> stable_ok a b c ->
-  stable_with M a b c <> 0%Z -> stable_with M a b c = sgnR (detR a b c).
-(** the same WITHOUT the guard is what RobustSign needs for all unit-length inputs; it is FALSE
-    of the unchanged code ([H_STABLE_DET_ALL_refuted] below): when two points differ by a
-    denormal amount, |e|^2 underflows, maxErr = 0 and rounding noise is accepted as a sign. *)
-Definition H_STABLE_DET_ALL : Prop := forall M a b c, ffinite M = true -> D2R K_STABLE <= FR M ->
+(** H-STABLE-DET for the repaired function, in sign form, NO guard on the inputs: with any
+    multiplier >= K_STABLE and any lower limit >= K_STABLE * 2^-500 a non-zero answer is the sign
+    of the exact determinant. *)
+Definition H_STABLE_DET : Prop := forall M Mmin a b c,
+  ffinite M = true -> D2R K_STABLE <= FR M -> ffinite Mmin = true -> D2R K_STABLE_MIN <= FR Mmin ->
   unit_pt a -> unit_pt b -> unit_pt c ->
-  stable_with M a b c <> 0%Z -> stable_with M a b c = sgnR (detR a b c).
+  stable_with M Mmin a b c <> 0%Z -> stable_with M Mmin a b c = sgnR (detR a b c).
+(** the same for the function before the repair: FALSE ([H_STABLE_DET_OLD_refuted] below) *)
+Definition H_STABLE_DET_OLD : Prop := forall M a b c, ffinite M = true -> D2R K_STABLE <= FR M ->
+  unit_pt a -> unit_pt b -> unit_pt c ->
+  stable_old_with M a b c <> 0%Z -> stable_old_with M a b c = sgnR (detR a b c).
 
 Theorem stable_sound : H_STABLE_DET -> forall a b c, unit_pt a -> unit_pt b -> unit_pt c ->
-  stable_ok a b c -> s2_stableSign a b c <> 0%Z -> s2_stableSign a b c = sgnR (detR a b c).
+  s2_stableSign a b c <> 0%Z -> s2_stableSign a b c = sgnR (detR a b c).
 Proof.
-  intros H a b c Ua Ub Uc Ok. rewrite stable_is. destruct stable_const_ok as [FM LM].
+  intros H a b c Ua Ub Uc. rewrite stable_is. destruct stable_const_ok as (FM & LM & FN & LN).
   now apply H.
 Qed.
 
@@ -272,7 +277,6 @@ Section Robust.
   Hypothesis Ua : unit_pt a.
   Hypothesis Ub : unit_pt b.
   Hypothesis Uc : unit_pt c.
-  Hypothesis Ok : stable_ok a b c.
 
   Theorem robust_sign_spec :
     robust_sign a b c = if identical2 a b c then 0%Z else exact_sign a b c.
@@ -283,7 +287,7 @@ Section Robust.
     - unfold expensive_sign. fold (identical2 a b c).
       destruct (identical2 a b c) eqn:I; [reflexivity|]. cbv zeta.
       destruct (Z.eqb_spec (s2_stableSign a b c) 0) as [E2|E2]; simpl; [reflexivity|].
-      pose proof (stable_sound HS a b c Ua Ub Uc Ok E2) as Hs.
+      pose proof (stable_sound HS a b c Ua Ub Uc E2) as Hs.
       rewrite Hs. symmetry. apply exact_sign_det. intros D0. rewrite D0, sgnR_0 in Hs. contradiction.
     - pose proof (triage_sound HT a b c Ua Ub Uc E) as Hs.
       assert (D0 : detR a b c <> 0). { intros D0. rewrite D0, sgnR_0 in Hs. contradiction. }
@@ -324,20 +328,18 @@ Proof.
 Qed.
 
 Theorem robust_sign_rotate : H_TRIAGE_DET -> H_STABLE_DET -> forall a b c,
-  unit_pt a -> unit_pt b -> unit_pt c -> stable_ok a b c -> stable_ok b c a ->
-  robust_sign b c a = robust_sign a b c.
+  unit_pt a -> unit_pt b -> unit_pt c -> robust_sign b c a = robust_sign a b c.
 Proof.
-  intros HT HS a b c Ua Ub Uc Ok1 Ok2. rewrite !robust_sign_spec by assumption.
+  intros HT HS a b c Ua Ub Uc. rewrite !robust_sign_spec by assumption.
   rewrite identical2_rot. destruct (identical2 a b c) eqn:I; [reflexivity|].
   destruct Ua as [Fa _], Ub as [Fb _], Uc as [Fc _].
   apply (exact_sign_rotate a b c true); auto. now apply identical2_false_distinct.
 Qed.
 
 Theorem robust_sign_swap : H_TRIAGE_DET -> H_STABLE_DET -> forall a b c,
-  unit_pt a -> unit_pt b -> unit_pt c -> stable_ok a b c -> stable_ok c b a ->
-  robust_sign c b a = (- robust_sign a b c)%Z.
+  unit_pt a -> unit_pt b -> unit_pt c -> robust_sign c b a = (- robust_sign a b c)%Z.
 Proof.
-  intros HT HS a b c Ua Ub Uc Ok1 Ok2. rewrite !robust_sign_spec by assumption.
+  intros HT HS a b c Ua Ub Uc. rewrite !robust_sign_spec by assumption.
   destruct Ua as [Fa _], Ub as [Fb _], Uc as [Fc _].
   rewrite identical2_rev by assumption. destruct (identical2 a b c) eqn:I; [reflexivity|].
   apply (exact_sign_swap13 a b c true); auto. now apply identical2_false_distinct.
@@ -534,24 +536,34 @@ Proof. repeat split; apply unit_by_compute; vm_compute; reflexivity. Qed.
 Lemma bad_det : sgnR (detR bad_a bad_b bad_c) = (-1)%Z.
 Proof. rewrite <- exact_det_sign_correct. vm_compute. reflexivity. Qed.
 
-Theorem H_STABLE_DET_ALL_refuted : ~ H_STABLE_DET_ALL.
+(** the code before the repair bfbf523 *)
+Definition expensive_sign_old (a b c : s2_Point) : Z :=
+  if s2_Point_eqb a b || s2_Point_eqb b c || s2_Point_eqb c a then 0%Z else
+  let s := stable_old_with detErrMul a b c in
+  if negb (s =? 0)%Z then s else exact_sign a b c.
+Definition robust_sign_old (a b c : s2_Point) : Z :=
+  let s := s2_triageSign a b c in if (s =? 0)%Z then expensive_sign_old a b c else s.
+
+Theorem H_STABLE_DET_OLD_refuted : ~ H_STABLE_DET_OLD.
 Proof.
-  intros H. destruct bad_unit as (Ua & Ub & Uc). destruct stable_const_ok as [FM LM].
+  intros H. destruct bad_unit as (Ua & Ub & Uc). destruct stable_const_ok as (FM & LM & _).
   specialize (H detErrMul bad_a bad_b bad_c FM LM Ua Ub Uc).
-  assert (E : stable_with detErrMul bad_a bad_b bad_c = 1%Z) by (vm_compute; reflexivity).
+  assert (E : stable_old_with detErrMul bad_a bad_b bad_c = 1%Z) by (vm_compute; reflexivity).
   rewrite E, bad_det in H. assert (1 <> 0)%Z by lia. specialize (H H0). discriminate.
 Qed.
 
-(** the full-strength statement about RobustSign (no guard) is false of the unchanged code *)
-Theorem robust_sign_det_refuted : exists a b c, unit_pt a /\ unit_pt b /\ unit_pt c /\
-  detR a b c <> 0 /\ robust_sign a b c <> sgnR (detR a b c).
+(** RobustSign as it was before the repair: not the sign of the exact determinant *)
+Theorem robust_sign_det_old_refuted : exists a b c, unit_pt a /\ unit_pt b /\ unit_pt c /\
+  detR a b c <> 0 /\ robust_sign_old a b c <> sgnR (detR a b c).
 Proof.
   exists bad_a, bad_b, bad_c. destruct bad_unit as (Ua & Ub & Uc).
   split; [exact Ua|]. split; [exact Ub|]. split; [exact Uc|]. split.
   - intros E. pose proof bad_det as H. rewrite E, sgnR_0 in H. discriminate.
-  - rewrite bad_det. assert (E : robust_sign bad_a bad_b bad_c = 1%Z) by (vm_compute; reflexivity).
+  - rewrite bad_det. assert (E : robust_sign_old bad_a bad_b bad_c = 1%Z) by (vm_compute; reflexivity).
     rewrite E. discriminate.
 Qed.
 
-Example stable_ok_example : stable_ok ex_x ex_y ex_z /\ ~ stable_ok bad_a bad_b bad_c.
-Proof. split; [vm_compute; reflexivity|]. unfold stable_ok. vm_compute. discriminate. Qed.
+(** the repaired code on the same input: stableSign abstains, the exact stage answers *)
+Example repaired_on_witness : s2_stableSign bad_a bad_b bad_c = 0%Z /\
+  robust_sign bad_a bad_b bad_c = (-1)%Z /\ robust_sign_stage bad_a bad_b bad_c = 4%Z.
+Proof. vm_compute. repeat split. Qed.
